@@ -10,7 +10,7 @@ def run(prop, level, tier, scenarios, judge, budgets_of, rule, assumptions,
     if max_execs is None and rep.tier == 'thorough':
         # safety net for the deep budgets: a scenario (or one of its
         # subtrees) that needs more executions is cut and reported as a cap
-        max_execs = 6000
+        max_execs = 2500
     parts = sched.explore_scenarios(scenarios, judge, budgets_of, want=want,
                                     max_execs=max_execs)
     sched.merge_parts(rep, parts)
